@@ -318,3 +318,329 @@ func c38ExtractS3ClientMap(x *ExtractCtx) error {
 	fmt.Fprintf(w, "end Pithos.Gen.S3ClientMap\n")
 	return nil
 }
+
+// ---------------------------------------------------------------------------------------------
+// T1 extractor "s3errortables": regenerates lean/Pithos/Gen/S3ErrorTables.lean — the two halves of
+// the error path between a pithos server and the S3-client storage, as tables:
+//   server  (internal/http/server/protocol.go handleError)      sentinel → status, S3 error code
+//   client  (internal/storage/s3client/s3client.go translateS3Error, storageErrorsByS3Code and the
+//            method-specific `ErrorCode() == "…"` clauses)      S3 error code / bare status → sentinel
+// The S3 error code the server writes is the sentinel's text (errors.New("…")), read from
+// internal/storage and internal/storage/metadatapart/metadatastore.
+
+func init() { registerExtractor("s3errortables", c38ExtractS3ErrorTables) }
+
+var c38HTTPStatus = map[string]string{
+	"http.StatusNotFound": "404", "http.StatusMethodNotAllowed": "405", "http.StatusNotImplemented": "501",
+	"http.StatusPreconditionFailed": "412", "http.StatusNotModified": "304", "http.StatusRequestedRangeNotSatisfiable": "416",
+	"http.StatusBadRequest": "400", "http.StatusConflict": "409", "http.StatusRequestEntityTooLarge": "413", "http.StatusInternalServerError": "500",
+}
+
+func c38Status(s string) (string, error) {
+	if v, ok := c38HTTPStatus[s]; ok {
+		return v, nil
+	}
+	for _, r := range s {
+		if r < '0' || r > '9' {
+			return "", fmt.Errorf("unknown HTTP status expression %q", s)
+		}
+	}
+	if s == "" {
+		return "", fmt.Errorf("empty HTTP status")
+	}
+	return s, nil
+}
+
+// c38SentinelTexts resolves `var ErrX error = errors.New("T")` and aliases `var ErrX error = pkg.ErrY`.
+func c38SentinelTexts(x *ExtractCtx, files []string) (map[string]string, error) {
+	text := map[string]string{}
+	alias := map[string]string{}
+	for _, rel := range files {
+		f, err := x.ParseFile(rel)
+		if err != nil {
+			return nil, err
+		}
+		for _, d := range f.Decls {
+			gd, ok := d.(*ast.GenDecl)
+			if !ok || gd.Tok != token.VAR {
+				continue
+			}
+			for _, sp := range gd.Specs {
+				vs := sp.(*ast.ValueSpec)
+				for i, n := range vs.Names {
+					if !strings.HasPrefix(n.Name, "Err") || i >= len(vs.Values) {
+						continue
+					}
+					switch v := vs.Values[i].(type) {
+					case *ast.CallExpr:
+						if x.Src(v.Fun) == "errors.New" && len(v.Args) == 1 {
+							if bl, ok := v.Args[0].(*ast.BasicLit); ok {
+								if _, dup := text[n.Name]; !dup {
+									text[n.Name] = strings.Trim(bl.Value, "\"")
+								}
+							}
+						}
+					case *ast.SelectorExpr:
+						alias[n.Name] = v.Sel.Name
+					}
+				}
+			}
+		}
+	}
+	for a, b := range alias {
+		if t, ok := text[b]; ok {
+			if _, own := text[a]; !own || a != b {
+				text[a] = t
+			}
+		}
+	}
+	return text, nil
+}
+
+func c38ExtractS3ErrorTables(x *ExtractCtx) error {
+	texts, err := c38SentinelTexts(x, []string{"internal/storage/metadatapart/metadatastore/metadatastore.go", "internal/storage/storage.go",
+		"internal/storage/tagging.go", "internal/storage/metadata.go", "internal/storage/metadatapart/metadatastore/bucketname.go",
+		"internal/storage/metadatapart/metadatastore/objectkey.go", "internal/storage/metadatapart/metadatastore/uploadid.go"})
+	if err != nil {
+		return err
+	}
+	// ---- server
+	pf, err := x.ParseFile("internal/http/server/protocol.go")
+	if err != nil {
+		return err
+	}
+	he := FindFunc(pf, "", "handleError")
+	if he == nil {
+		return fmt.Errorf("handleError not found")
+	}
+	x.Note("handleError", he)
+	codeIsText := false
+	ast.Inspect(he.Body, func(n ast.Node) bool {
+		if as, ok := n.(*ast.AssignStmt); ok && len(as.Lhs) == 1 && x.Src(as.Lhs[0]) == "errResponse.Code" && x.Src(as.Rhs[0]) == "err.Error()" {
+			codeIsText = true
+		}
+		return true
+	})
+	if !codeIsText {
+		return fmt.Errorf("handleError no longer sets errResponse.Code = err.Error()")
+	}
+	var enc, bodyless []string
+	defStatus, defCode := "", ""
+	var ferr error
+	ast.Inspect(he.Body, func(n ast.Node) bool {
+		switch t := n.(type) {
+		case *ast.IfStmt:
+			if as, ok := t.Init.(*ast.AssignStmt); ok && strings.Contains(x.Src(as.Rhs[0]), "storage.") {
+				s := x.Src(as.Rhs[0])
+				ty := strings.TrimSuffix(s[strings.Index(s, "storage.")+len("storage."):], ")")
+				status := ""
+				var headers []string
+				ast.Inspect(t.Body, func(m ast.Node) bool {
+					if c, ok := m.(*ast.CallExpr); ok {
+						if x.Src(c.Fun) == "w.WriteHeader" {
+							status = x.Src(c.Args[0])
+						}
+						if x.Src(c.Fun) == "responseHeaders.Set" {
+							headers = append(headers, x.Src(c.Args[0]))
+						}
+					}
+					return true
+				})
+				st, e := c38Status(status)
+				if e != nil {
+					ferr = e
+				}
+				bodyless = append(bodyless, fmt.Sprintf("(%s, %s, %s)", LeanStr(ty), LeanStr(st), LeanStrList(headers)))
+			}
+		case *ast.CaseClause:
+			status, code := "", ""
+			for _, st := range t.Body {
+				if as, ok := st.(*ast.AssignStmt); ok {
+					switch x.Src(as.Lhs[0]) {
+					case "statusCode":
+						status = x.Src(as.Rhs[0])
+					case "errResponse.Code":
+						code = strings.Trim(x.Src(as.Rhs[0]), "\"")
+					}
+				}
+			}
+			if len(t.List) == 0 { // default
+				st, e := c38Status(status)
+				if e != nil {
+					ferr = e
+				}
+				defStatus, defCode = st, code
+				return true
+			}
+			for _, e := range t.List {
+				s := x.Src(e)
+				if !strings.HasPrefix(s, "storage.Err") {
+					continue // server-local errors (ErrInvalidRequest, trailer errors) never come from a storage
+				}
+				name := strings.TrimPrefix(s, "storage.")
+				c := code
+				if c == "" {
+					tx, ok := texts[name]
+					if !ok {
+						ferr = fmt.Errorf("text of %s not found", name)
+						return true
+					}
+					c = tx
+				}
+				st, e2 := c38Status(status)
+				if e2 != nil {
+					ferr = e2
+				}
+				enc = append(enc, fmt.Sprintf("(%s, %s, %s)", LeanStr(name), LeanStr(st), LeanStr(c)))
+			}
+		}
+		return true
+	})
+	if ferr != nil {
+		return ferr
+	}
+	// ---- client
+	cf, err := x.ParseFile("internal/storage/s3client/s3client.go")
+	if err != nil {
+		return err
+	}
+	var dec []string
+	found := false
+	ast.Inspect(cf, func(n ast.Node) bool {
+		vs, ok := n.(*ast.ValueSpec)
+		if !ok || len(vs.Names) != 1 || vs.Names[0].Name != "storageErrorsByS3Code" || len(vs.Values) != 1 {
+			return true
+		}
+		cl, ok := vs.Values[0].(*ast.CompositeLit)
+		if !ok {
+			return true
+		}
+		found = true
+		x.Note("storageErrorsByS3Code", vs)
+		for _, el := range cl.Elts {
+			kvx := el.(*ast.KeyValueExpr)
+			k, ok1 := kvx.Key.(*ast.BasicLit)
+			v := x.Src(kvx.Value)
+			if !ok1 || !strings.HasPrefix(v, "storage.Err") {
+				ferr = fmt.Errorf("unrecognised entry in storageErrorsByS3Code: %s", x.Src(kvx))
+				continue
+			}
+			dec = append(dec, fmt.Sprintf("(%s, %s)", LeanStr(strings.Trim(k.Value, "\"")), LeanStr(strings.TrimPrefix(v, "storage."))))
+		}
+		return true
+	})
+	if !found {
+		return fmt.Errorf("storageErrorsByS3Code not found")
+	}
+	tr := FindFunc(cf, "", "translateS3Error")
+	if tr == nil {
+		return fmt.Errorf("translateS3Error not found")
+	}
+	x.Note("translateS3Error", tr)
+	var bareStatus, marker []string
+	usesTable := false
+	ast.Inspect(tr.Body, func(n ast.Node) bool {
+		if ix, ok := n.(*ast.IndexExpr); ok && x.Src(ix.X) == "storageErrorsByS3Code" && strings.HasSuffix(x.Src(ix.Index), ".ErrorCode()") {
+			usesTable = true
+		}
+		sw, ok := n.(*ast.SwitchStmt)
+		if !ok || sw.Tag == nil || !strings.HasSuffix(x.Src(sw.Tag), ".HTTPStatusCode()") {
+			return true
+		}
+		for _, cc := range sw.Body.List {
+			c := cc.(*ast.CaseClause)
+			res := ""
+			for _, st := range c.Body {
+				if r, ok := st.(*ast.ReturnStmt); ok && len(r.Results) == 1 {
+					res = x.Src(r.Results[0])
+				}
+			}
+			for _, e := range c.List {
+				st, e2 := c38Status(x.Src(e))
+				if e2 != nil {
+					ferr = e2
+					continue
+				}
+				switch {
+				case strings.HasPrefix(res, "&storage."):
+					ty := strings.TrimPrefix(res, "&storage.")
+					marker = append(marker, fmt.Sprintf("(%s, %s)", LeanStr(st), LeanStr(ty[:strings.Index(ty, "{")])))
+				case strings.HasPrefix(res, "storage.Err"):
+					bareStatus = append(bareStatus, fmt.Sprintf("(%s, %s)", LeanStr(st), LeanStr(strings.TrimPrefix(res, "storage."))))
+				default:
+					ferr = fmt.Errorf("unrecognised result %q in translateS3Error", res)
+				}
+			}
+		}
+		return true
+	})
+	if ferr != nil {
+		return ferr
+	}
+	if !usesTable {
+		return fmt.Errorf("translateS3Error no longer looks the error code up in storageErrorsByS3Code")
+	}
+	markerGuard := strings.Contains(x.Src(tr.Body), `header.Get("x-amz-delete-marker") == "true"`)
+	// which methods send their otherwise untranslated errors through translateS3Error, and
+	// method-specific code clauses (they run before it)
+	var translating, methodClauses []string
+	headDisambiguates := false
+	for _, d := range cf.Decls {
+		fd, ok := d.(*ast.FuncDecl)
+		if !ok || fd.Body == nil {
+			continue
+		}
+		calls, viaCopy := false, false
+		ast.Inspect(fd.Body, func(n ast.Node) bool {
+			if c, ok := n.(*ast.CallExpr); ok {
+				switch x.Src(c.Fun) {
+				case "translateS3Error":
+					calls = true
+				case "translateS3CopyError":
+					viaCopy = true
+				case "rs.missingBucketOrKey":
+					if fd.Name.Name == "HeadObject" {
+						headDisambiguates = true
+					}
+				}
+			}
+			return true
+		})
+		if fd.Recv != nil && (calls || viaCopy) {
+			translating = append(translating, LeanStr(fd.Name.Name))
+		}
+		if fd.Name.Name == "translateS3CopyError" && !calls {
+			return fmt.Errorf("translateS3CopyError no longer falls back to translateS3Error")
+		}
+		if fd.Recv != nil {
+			for _, c := range c38Clauses(x, fd) {
+				if strings.HasPrefix(c.Matcher, "code:") {
+					methodClauses = append(methodClauses, fmt.Sprintf("(%s, %s, %s)", LeanStr(fd.Name.Name), LeanStr(strings.TrimPrefix(c.Matcher, "code:")), LeanStr(c.Result)))
+				}
+			}
+		}
+	}
+	w := x.Lean
+	fmt.Fprintf(w, "-- Sources: internal/http/server/protocol.go (handleError), internal/storage/s3client/s3client.go\n-- (storageErrorsByS3Code, translateS3Error), sentinel texts from internal/storage and metadatastore.\n")
+	fmt.Fprintf(w, "namespace Pithos.Gen.S3ErrorTables\n\n")
+	fmt.Fprintf(w, "/-- Server: (storage sentinel, HTTP status, S3 error code written into the XML body). -/\n")
+	fmt.Fprintf(w, "def serverEncode : List (String × String × String) := [\n  %s\n]\n\n", strings.Join(enc, ",\n  "))
+	fmt.Fprintf(w, "/-- Server: error types answered with a bare status and these headers. -/\n")
+	fmt.Fprintf(w, "def serverBodyless : List (String × String × List String) := [%s]\n\n", strings.Join(bodyless, ", "))
+	fmt.Fprintf(w, "/-- Server: every other error. -/\ndef serverDefault : String × String := (%s, %s)\n\n", LeanStr(defStatus), LeanStr(defCode))
+	fmt.Fprintf(w, "/-- Client: `storageErrorsByS3Code` (S3 error code → storage sentinel). -/\n")
+	fmt.Fprintf(w, "def clientDecode : List (String × String) := [\n  %s\n]\n\n", strings.Join(dec, ",\n  "))
+	fmt.Fprintf(w, "/-- Client: bodyless replies by status (no delete-marker header). -/\n")
+	fmt.Fprintf(w, "def clientBareStatus : List (String × String) := [%s]\n\n", strings.Join(bareStatus, ", "))
+	fmt.Fprintf(w, "/-- Client: bodyless replies carrying `x-amz-delete-marker: true`, by status → error type. -/\n")
+	fmt.Fprintf(w, "def clientDeleteMarker : List (String × String) := [%s]\n", strings.Join(marker, ", "))
+	fmt.Fprintf(w, "def clientDeleteMarkerGuarded : Bool := %v\n\n", markerGuard)
+	fmt.Fprintf(w, "/-- Client: method-specific `ErrorCode() == \"…\"` clauses (method, code, sentinel); they run first. -/\n")
+	fmt.Fprintf(w, "def clientMethodClauses : List (String × String × String) := [\n  %s\n]\n\n", strings.Join(methodClauses, ",\n  "))
+	fmt.Fprintf(w, "/-- Client: methods whose otherwise untranslated errors go through `translateS3Error`. -/\n")
+	fmt.Fprintf(w, "def translatingMethods : List String := [%s]\n\n", strings.Join(translating, ", "))
+	fmt.Fprintf(w, "/-- `HeadObject` resolves a bare 404 (no delete marker) by a HeadBucket (`missingBucketOrKey`). -/\n")
+	fmt.Fprintf(w, "def headObjectDisambiguates : Bool := %v\n\n", headDisambiguates)
+	fmt.Fprintf(w, "end Pithos.Gen.S3ErrorTables\n")
+	return nil
+}
